@@ -34,6 +34,11 @@ RULE = ("hand-written catalogue (the shape of defect F9 [hosts; redirect; cache]
         "and 7 seeded random cases (6-12 valid queries of all shapes incl. root and one-label names over random "
         "transports, advertised UDP sizes around the exact reply length); observed per query: the reply bytes re-parsed, "
         "or none (connection closed / HTTP error / nothing within the wait) "
+        "+ pipelined-TCP rounds on the real ServeTCP (one case of 6 rounds x 48 queries, further cases of 3 rounds x 8-32): "
+        "k queries of mixed reply lengths written back to back on one connection, a barrier executable at the end of the "
+        "chain holds every one until all k have arrived and releases them together, so the k replies are written at the "
+        "same moment; when the handler goroutines have ended the client reads frame by frame and matches frames to queries "
+        "by id - every query must get exactly one well-framed reply with its own id and question "
         "+ seeded random programs (1-3 sequences, 1-6 rules, matchers has_resp/qtype/_true/_false with '!', all action "
         "kinds) over pools of the REAL cache, redirect, hosts, black_hole, arbitrary, ttl, ecs_handler, forward_edns0opt, "
         "drop_resp and forward plugins (forward over scripted in-memory upstreams echoing id+question with any rcode, "
@@ -55,6 +60,8 @@ ASSUMPTIONS = [
     "Handle on the unpacked message with FromUDP set for UDP only (checked on the real servers for a sample of queries "
     "per run; DoT/DoQ/HTTP3 listeners share these code paths and are not run). A UDP query that must stay unanswered is "
     "watched for 300 ms; an expected reply is waited for up to 20 s, a closed connection or an HTTP error is an event",
+    "pipelined rounds: frames are read after all handler goroutines of the round have ended (everything is in the socket "
+    "then); a 2 s per-frame deadline only ends a read on a stream that is out of step or finished",
     "fallback and dual_selector: the concurrent sub-runs on context copies are modelled in sequence and their timers "
     "are left out (threshold 60 s in the driver, reference query within its 500 ms grace period); the driver joins the "
     "goroutines Handle started (every case starts from the idle process, the goroutine count right after building the "
